@@ -512,7 +512,7 @@ every `Write` and `Close` returned no error, then the file on disk is exactly
 theorem close_ok_roundtrip (deflate : Bytes → Bytes) (r q : Bytes) (s : Session)
     (hclean : (runSession H d deflate r q s).clean = true) :
     (runSession H d deflate r q s).disk = finish H d deflate r q s.written := by
-  simp only [runSession, Outcome.clean, Bool.and_eq_true, Option.isNone_iff_eq_none,
+  simp only [runSession, SessionResult.clean, Bool.and_eq_true, Option.isNone_iff_eq_none,
     List.all_eq_true] at hclean ⊢
   obtain ⟨⟨hc, hw⟩, hcl⟩ := hclean
   -- CreateLevel returned nil: the placeholder is on disk
